@@ -171,6 +171,14 @@ def eval_interop(case):
             hashes["libpass"] = lp.hash(p, salt=lp_salt_arg(fmt, salt, rounds))
     except Exception as e:  # noqa: BLE001
         out.append((f"C20|{fmt}|libpass_hash:raises:{_exc(e)}", f"libpass {fmt} hash({p!r}, salt={salt!r}) at cost {rounds} raised {e!r}"))
+    if KIND[fmt] == "sha" and "libpass" in hashes and isinstance(salt, str):
+        # the salt argument is documented as text or bytes: the same salt in its other representation, the same hash
+        try:
+            hb = lp.hash(p, salt=salt.encode("ascii"))
+            if hb != hashes["libpass"]:
+                out.append((f"C20|{fmt}|libpass_hash:bytes_salt_differs", f"libpass {fmt} hash({p!r}, salt={salt.encode('ascii')!r}) = {hb!r}, with the text salt {hashes['libpass']!r}"))
+        except Exception as e:  # noqa: BLE001
+            out.append((f"C20|{fmt}|libpass_hash:bytes_salt:raises:{_exc(e)}", f"libpass {fmt} hash(salt={salt.encode('ascii')!r}) raised {e!r}"))
     try:
         hashes["passlib"] = pl_handler(fmt, rounds, salt).hash(p)
     except Exception as e:  # noqa: BLE001
